@@ -55,7 +55,12 @@ def pools(ctx):
             tries = 0
             while len(pool) < size and tries < size * 20:
                 tries += 1
-                pool.add(versions.gen(rng, sysi))
+                b = versions.gen(rng, sysi)
+                pool.add(b)
+                # related spellings: the pairs on which comparators go wrong are rarely drawn independently
+                for v in versions.variants(rng, sysi, b):
+                    if len(pool) < size:
+                        pool.add(v)
             out.append((sysi, sorted(pool)))
     return out
 
